@@ -141,6 +141,11 @@ func (opts GeneratorOptions) setFieldValue(t *rapid.T, msg protoreflect.Message,
 				list.Append(opts.genScalarFieldValue(t, field, fmt.Sprintf("%s%d", name, i)))
 			}
 		}
+		if n > 0 && list.Len() == 0 {
+			// elements were asked for but none could be generated: leave the field unset rather than
+			// holding the empty non-nil list that NoEmptyLists exists to prevent
+			msg.Clear(field)
+		}
 	case field.IsMap():
 		m := msg.Mutable(field).Map()
 		n := rapid.IntRange(0, 10).Draw(t, fmt.Sprintf("%sN", name))
